@@ -225,6 +225,8 @@ def select__for_expression(self: XPathToken, context: ta.ContextType = None) \
 @method('instance', bp=60, label='expression')
 @method('treat', bp=61, label='expression')
 def led__sequence_type_based_expressions(self: XPathToken, left: XPathToken) -> XPathToken:
+    if left.symbol in ('instance', 'treat', 'castable', 'cast') and left.lbp <= self.lbp:
+        raise self.wrong_syntax()  # not associative: a lower or same level needs parentheses
     self.parser.advance('of' if self.symbol == 'instance' else 'as')
     self[:] = left, self.parser.parse_sequence_type()
     return self
@@ -334,6 +336,8 @@ def evaluate__treat_expression(self: XPathToken, context: ta.ContextType = None)
 @method('castable', bp=62, label='expression')
 @method('cast', bp=63, label='expression')
 def led__cast_expressions(self: XPathToken, left: XPathToken) -> XPathToken:
+    if left.symbol in ('instance', 'treat', 'castable', 'cast') and left.lbp <= self.lbp:
+        raise self.wrong_syntax()  # not associative: a lower or same level needs parentheses
     self.parser.advance('as')
     self.parser.expected_next('(name)', ':', 'Q{', message='an EQName expected')
     self[:] = left, self.parser.expression(rbp=85)
